@@ -45,4 +45,81 @@ theorem wrap_of_has (k : Kind) (hb : 0 < k.bits) (v : Int) (h : k.has v = true) 
       have : v + M ≥ P := by omega
       simp [this]
 
+/-! ## IsEnum: the round trip `v == T(p) && TV(v) == p` -/
+
+theorem pow_mono {a b : Nat} (h : a ≤ b) : (2 : Int) ^ a ≤ (2 : Int) ^ b := by
+  have h1 : (2 : Nat) ^ a ≤ 2 ^ b := Nat.pow_le_pow_right (by decide) h
+  have h2 : ((2 ^ a : Nat) : Int) ≤ ((2 ^ b : Nat) : Int) := Int.ofNat_le.mpr h1
+  rw [Int.natCast_pow, Int.natCast_pow] at h2
+  exact h2
+
+theorem lo_nonpos (k : Kind) : k.lo ≤ 0 := by
+  unfold Kind.lo
+  have : (0 : Int) < (2 : Int) ^ (k.bits - 1) := Int.pow_pos (by decide)
+  split <;> omega
+
+theorem nonneg_of_unsigned (k : Kind) (hs : k.signed = false) (v : Int) (h : k.has v = true) : 0 ≤ v := by
+  unfold Kind.has Kind.lo at h
+  simp only [hs, Bool.false_eq_true, ↓reduceIte, Bool.and_eq_true, decide_eq_true_eq] at h
+  exact h.1
+
+/-- a narrower type of the same signedness is contained in the wider one -/
+theorem has_mono (k1 k2 : Kind) (hs : k1.signed = k2.signed) (hb1 : 0 < k1.bits) (hb : k1.bits ≤ k2.bits) (v : Int)
+    (h : k1.has v = true) : k2.has v = true := by
+  unfold Kind.has Kind.lo Kind.hi at *
+  simp only [Bool.and_eq_true, decide_eq_true_eq] at *
+  have hp : (2 : Int) ^ (k1.bits - 1) ≤ (2 : Int) ^ (k2.bits - 1) := pow_mono (by omega)
+  have hq : (2 : Int) ^ k1.bits ≤ (2 : Int) ^ k2.bits := pow_mono hb
+  rw [← hs]
+  generalize (2 : Int) ^ (k1.bits - 1) = P1 at *
+  generalize (2 : Int) ^ (k2.bits - 1) = P2 at *
+  generalize (2 : Int) ^ k1.bits = M1 at *
+  generalize (2 : Int) ^ k2.bits = M2 at *
+  cases hs1 : k1.signed
+  · simp only [hs1, Bool.false_eq_true, ↓reduceIte] at h ⊢; omega
+  · simp only [hs1, ↓reduceIte] at h ⊢; omega
+
+/-- a declared value `c` of T and a probe `p` of TV of the SAME sign that survive both conversions
+    (`c = T(p)`, `TV(c) = p`) are the same integer -/
+theorem roundtrip_eq (kT kV : Kind) (hbT : 0 < kT.bits) (hbV : 0 < kV.bits) (c p : Int)
+    (hc : kT.has c = true) (hp : kV.has p = true) (hsign : c < 0 ↔ p < 0)
+    (h1 : c = wrap kT p) (h2 : wrap kV c = p) : c = p := by
+  by_cases hneg : c < 0
+  · -- both negative: both types are signed; the narrower one is contained in the other
+    have hpn : p < 0 := hsign.mp hneg
+    have hsT : kT.signed = true := by
+      cases hs : kT.signed
+      · have := nonneg_of_unsigned kT hs c hc; omega
+      · rfl
+    have hsV : kV.signed = true := by
+      cases hs : kV.signed
+      · have := nonneg_of_unsigned kV hs p hp; omega
+      · rfl
+    by_cases hb : kT.bits ≤ kV.bits
+    · have := has_mono kT kV (by rw [hsT, hsV]) hbT hb c hc
+      rw [wrap_of_has kV hbV c this] at h2; exact h2
+    · have := has_mono kV kT (by rw [hsT, hsV]) hbV (by omega) p hp
+      rw [wrap_of_has kT hbT p this] at h1; exact h1
+  · -- both non-negative
+    have hc0 : 0 ≤ c := by omega
+    have hp0 : 0 ≤ p := by
+      by_cases hpn : p < 0
+      · exact absurd (hsign.mpr hpn) hneg
+      · omega
+    by_cases hle : p ≤ kT.hi
+    · have : kT.has p = true := by
+        unfold Kind.has; simp only [Bool.and_eq_true, decide_eq_true_eq]
+        exact ⟨Int.le_trans (lo_nonpos kT) hp0, hle⟩
+      rw [wrap_of_has kT hbT p this] at h1; exact h1
+    · exfalso
+      have hchi : c ≤ kT.hi := by
+        unfold Kind.has at hc; simp only [Bool.and_eq_true, decide_eq_true_eq] at hc; exact hc.2
+      have hphi : p ≤ kV.hi := by
+        unfold Kind.has at hp; simp only [Bool.and_eq_true, decide_eq_true_eq] at hp; exact hp.2
+      have : kV.has c = true := by
+        unfold Kind.has; simp only [Bool.and_eq_true, decide_eq_true_eq]
+        exact ⟨Int.le_trans (lo_nonpos kV) hc0, by omega⟩
+      rw [wrap_of_has kV hbV c this] at h2
+      omega
+
 end ShootVerif.Enum
